@@ -6,7 +6,11 @@ import (
 	"strings"
 	"time"
 
+	"github.com/openconfig/gnmi/cache"
+	"github.com/openconfig/gnmi/ctree"
 	"github.com/openconfig/gnmi/latency"
+	"github.com/openconfig/gnmi/metadata"
+	pb "github.com/openconfig/gnmi/proto/gnmi"
 	"github.com/openconfig/gnmi/zzverif/seqmc"
 )
 
@@ -177,5 +181,128 @@ func specsLatency(tier string) []seqmc.Spec {
 		d := depth + 3
 		out = append(out, seqmc.Spec{Name: fmt.Sprintf("latency windows %dp,%dp (short next to long)", ws[0]/period, ws[1]/period), Ops: cfg.ops, Depth: d, New: func() seqmc.Sys { return newLatSys(cfg) }})
 	}
+	out = append(out, specCacheLatency(tier))
 	return out
+}
+
+// ---- latency statistics as the CACHE exports them (cache built WithLatencyWindows)
+//
+// The target's stream is sampled only while the target is in sync (the initial
+// dump after a (re)connect carries old timestamps and says nothing about
+// latency). Histories over {sync, reset, dump (an update stamped two hours
+// ago), fresh2 / fresh3 (updates stamped 2 s / 3 s ago), tick (2.5 s pass,
+// metadata refresh)}. After every refresh each exported latency statistic of
+// the 2 s window that is set (> 0) lies between the smallest and the largest
+// latency observed - in sync - since the last reset.
+
+type cacheLatSys struct {
+	c       *cache.Cache
+	now     int64 // ns
+	synced  bool
+	samples []int64
+	seq     int64
+	hist    []int
+}
+
+var cacheLatNow *int64
+
+var cacheLatOps = []string{"sync", "reset", "dump", "fresh2", "fresh3", "tick"}
+
+func newCacheLatSys() *cacheLatSys {
+	s := &cacheLatSys{now: int64(100000 * time.Second)}
+	curWorld = nil
+	cacheLatNow = &s.now
+	latClock = &s.now
+	opt, err := cache.WithLatencyWindows([]string{"2s"}, time.Second)
+	if err != nil {
+		panic(err)
+	}
+	s.c = cache.New([]string{"t"}, opt)
+	s.c.SetClient(func(*ctree.Leaf) {})
+	return s
+}
+
+func (s *cacheLatSys) upd(ago time.Duration) {
+	s.seq++
+	s.now += int64(time.Millisecond)
+	ts := s.now - int64(ago)
+	s.c.GnmiUpdate(&pb.Notification{Timestamp: ts, Prefix: &pb.Path{Target: "t"}, Update: []*pb.Update{{Path: &pb.Path{Elem: []*pb.PathElem{{Name: fmt.Sprintf("l%d", s.seq%3)}}}, Val: &pb.TypedValue{Value: &pb.TypedValue_IntVal{IntVal: s.seq}}}}})
+	if s.synced {
+		s.samples = append(s.samples, int64(ago))
+	}
+}
+
+func (s *cacheLatSys) Apply(i int) []seqmc.Violation {
+	cacheLatNow, latClock, curWorld = &s.now, &s.now, nil
+	s.hist = append(s.hist, i)
+	switch cacheLatOps[i] {
+	case "sync":
+		s.c.Sync("t")
+		s.synced = true
+	case "reset":
+		s.c.Reset("t")
+		s.synced = false
+		s.samples = nil
+	case "dump":
+		s.upd(2 * time.Hour)
+	case "fresh2":
+		s.upd(2 * time.Second)
+	case "fresh3":
+		s.upd(3 * time.Second)
+	case "tick":
+		s.now += int64(2500 * time.Millisecond)
+		s.c.UpdateMetadata()
+		if len(s.samples) == 0 {
+			return nil
+		}
+		lo, hi := s.samples[0], s.samples[0]
+		for _, x := range s.samples {
+			if x < lo {
+				lo = x
+			}
+			if x > hi {
+				hi = x
+			}
+		}
+		var vs []seqmc.Violation
+		s.c.Query("t", []string{metadata.Root, "latency"}, func(p []string, _ *ctree.Leaf, v interface{}) error {
+			n, ok := v.(*pb.Notification)
+			if !ok || len(n.Update) != 1 {
+				return nil
+			}
+			iv, ok := n.Update[0].GetVal().GetValue().(*pb.TypedValue_IntVal)
+			if !ok || iv.IntVal <= 0 {
+				return nil
+			}
+			if iv.IntVal < lo-int64(time.Millisecond) || iv.IntVal > hi {
+				vs = append(vs, vio("latency-out-of-bounds", "exported %s = %v, but every latency observed in sync since the last reset lies in [%v, %v]", strings.Join(p, "/"), time.Duration(iv.IntVal), time.Duration(lo), time.Duration(hi)))
+			}
+			return nil
+		})
+		return vs
+	}
+	return nil
+}
+
+func (s *cacheLatSys) Key() string {
+	// time only moves forward: the history itself is the state (depth-bounded enumeration)
+	var ex []string
+	s.c.Query("t", []string{metadata.Root, "latency"}, func(p []string, _ *ctree.Leaf, v interface{}) error {
+		if n, ok := v.(*pb.Notification); ok && len(n.Update) == 1 {
+			ex = append(ex, fmt.Sprintf("%s=%d", p[len(p)-1], n.Update[0].GetVal().GetIntVal()))
+		}
+		return nil
+	})
+	sort.Strings(ex)
+	// the whole history is the state: the space is small (6^depth), and anything
+	// coarser would have to guess what the cache remembers across a reset
+	return fmt.Sprintf("%v|%d|%v|%v|%d|%v", s.hist, s.now, s.synced, s.samples, s.seq, ex)
+}
+
+func specCacheLatency(tier string) seqmc.Spec {
+	depth := 6
+	if tier == "thorough" {
+		depth = 8
+	}
+	return seqmc.Spec{Name: "latency statistics as the cache exports them (WithLatencyWindows 2s): sync / reset / initial dump / fresh updates / refresh", Ops: cacheLatOps, Depth: depth, New: func() seqmc.Sys { return newCacheLatSys() }}
 }
